@@ -49,7 +49,7 @@ TRUSTED_BASE = common.TRUSTED_BASE_COMMON + [
     "every row of the generated workflow table"]
 ASSUMPTIONS = ["reference provider protocol (atomic poll); in-flight = acknowledged actions that have not reported a "
                "completed status; known finding D1"]
-FAM = progs.family(p_bad=0.06, p_retry=0.2, p_cleanup_fail=0.1, w_ctrl=1.5, p_cmd=0.25, p_fail=0.2, p_intermediate=0.12, lifecycle=True, w_malformed=0.03, n_tasks=(2, 7),
+FAM = progs.family(p_bad=0.06, p_retry=0.2, p_cleanup_fail=0.1, w_ctrl=1.5, p_cmd=0.25, p_fail=0.2, p_intermediate=0.22, lifecycle=True, w_malformed=0.03, n_tasks=(2, 7),
                    steps=(15, 70), w_rerun=0.0)
 
 
@@ -66,7 +66,7 @@ def nontrivial(r):
 
 def run(ctx):
     out = common.conductor_run(
-        ctx, "C02", FAM, common.project_full, monitors.c02, features, nontrivial, 300, 6000,
+        ctx, "C02", FAM, common.project_full, monitors.c02, features, nontrivial, 500, 6000,
         rule="generated definitions with fail commands and remediation under random histories dense in pause/resume/cancel "
              "requests; non-trivial = at least two of succeeded/failed/pausing/paused/canceling were reported")
     # tie of the formal provider protocol (ProviderSys.v, what C02b / C03b quantify over) to the engine
